@@ -71,7 +71,10 @@ type Case struct {
 	// "action" = the last one is the Flame's final action; "notfound" = they are
 	// the not-found chain (Recovery as application middleware only).
 	Site string `json:"site,omitempty"`
-	// ReqHdr: request headers a recovery might look at: "" none, "accept-json"
+	// ReqHdr: what a recovery might look at besides the panic - request headers,
+	// where the request says it comes from (a loopback address in RemoteAddr,
+	// X-Real-IP or X-Forwarded-For is no licence to show detail), a request body
+	// that is short or still open: "" none, "accept-json"
 	// (Accept: application/json), "upgrade" (Connection: Upgrade, Upgrade: websocket),
 	// "accept-html".
 	ReqHdr string `json:"request_headers,omitempty"`
@@ -484,8 +487,27 @@ func serveM(a *app, method, path string) (r resp) {
 	case "upgrade":
 		hdr.Set("Connection", "Upgrade")
 		hdr.Set("Upgrade", "websocket")
+	case "x-real-ip-loopback":
+		hdr.Set("X-Real-IP", "127.0.0.1")
+	case "x-forwarded-for-loopback":
+		hdr.Set("X-Forwarded-For", "::1")
 	}
 	req := rt.NewRequest(method, path, hdr)
+	switch a.reqHdr {
+	case "remote-loopback":
+		req.RemoteAddr = "127.0.0.1:49152"
+	case "remote-loopback-v6":
+		req.RemoteAddr = "[::1]:49152"
+	case "body-open":
+		// an upload that is still going on: the body neither ends nor fails
+		pr, pw := io.Pipe()
+		defer pw.Close()
+		req.Body = pr
+		req.ContentLength = -1
+	case "body-short":
+		req.Body = io.NopCloser(strings.NewReader("k=v&payload=123"))
+		req.ContentLength = 15
+	}
 	ctx, cancel := gocontext.WithCancel(gocontext.Background())
 	defer cancel()
 	a.cancel = cancel
@@ -711,7 +733,7 @@ func genCase(t *rapid.T) Case {
 	}
 	c.Method = []string{"GET", "GET", "GET", "HEAD"}[rapid.IntRange(0, 3).Draw(t, "method")]
 	c.WrapWriter = rapid.IntRange(0, 4).Draw(t, "wrapwriter") == 0
-	c.ReqHdr = []string{"", "", "", "accept-json", "upgrade", "accept-html"}[rapid.IntRange(0, 5).Draw(t, "reqhdr")]
+	c.ReqHdr = []string{"", "", "", "accept-json", "upgrade", "accept-html", "x-real-ip-loopback", "x-forwarded-for-loopback", "remote-loopback", "remote-loopback-v6", "body-open", "body-short"}[rapid.IntRange(0, 11).Draw(t, "reqhdr")]
 	c.OuterWrites = c.Outer > 0 && !c.WrapWriter && rapid.IntRange(0, 4).Draw(t, "outerwrites") == 0
 	c.Twice = rapid.IntRange(0, 5).Draw(t, "twice") == 0
 	c.Late = c.RecoveryAt == "use" && rapid.IntRange(0, 4).Draw(t, "late") == 0
